@@ -34,7 +34,8 @@ class C13Dst(DstWorld):
     def enabled(self, st):
         m = st.m
         if m["done"]:
-            return []
+            # a further transaction on the same handler (same remote entity, next sequence number)
+            return [("newtx",)] if st.seq + 1 < self.cfg.get("max_tx", 1) and self.idle(st) else []
         evs = [("tick",)]
         if not m["md"]:
             evs.append(("md",))
@@ -53,6 +54,11 @@ class C13Dst(DstWorld):
         return size == 0 or merge([tuple(x) for x in stored]) == [(0, size)]
 
     def update_model(self, st, ev, out):
+        if ev[0] == "newtx":
+            out["pre_m"] = dict(st.m)
+            out["expiry_call"] = False
+            st.m = {"md": False, "eof": False, "stored": [], "count": 0, "done": False, "sent": [], "t": 0}
+            return
         m = dict(st.m)
         out["pre_m"] = dict(st.m)
         m["sent"] = list(m["sent"])
@@ -93,7 +99,7 @@ class C13Dst(DstWorld):
             v.append(Violation(P, clause, f"receiver {ev} ({out['pre_step']} -> {out['post_step']}, stored {m['stored']}, expiries so far {pre['count']}, "
                                             f"check limit {c['check_limit']}): {msg}", **d))
 
-        if ev[0] == "advance":
+        if ev[0] in ("advance", "newtx"):
             return v
         if e and not (e["protocol"] and ev[0] in ("fd", "md", "eof")):
             bad("C13.exception", f"{e['exc']} in {e['site']}", exc=e["exc"], site=e["site"])
@@ -219,6 +225,9 @@ def configs(tier):
         if tier == "quick" and cks == "crc32c" and (cl != 2 or size != L + 1):
             continue
         dst.append(dict(mode="unack", size=size, seg=L, check_limit=cl, closure=closure, cks=cks))
+    # two consecutive transactions on one DestHandler, both with the EOF overtaking data
+    for cl, closure in itertools.product((1, 2), (False, True)):
+        dst.append(dict(mode="unack", size=L + 1, seg=L, check_limit=cl, closure=closure, cks="crc32", max_tx=2))
     for size in (0, 3):
         src.append(dict(mode="unack", closure=True, size=size, seg=L))
     return dst, src
